@@ -45,3 +45,21 @@ JOBS += [
                     'carquet_schema_node_physical_type', 'carquet_schema_node_logical_type', 'carquet_schema_node_repetition', 'carquet_schema_node_type_length',
                     'carquet_schema_node_max_def_level', 'carquet_schema_node_max_rep_level'], **SB),
 ]
+JOBS += [
+    dict(name='c17_find_column_b3', props=['C17', 'C02'], entry='h_find_column', harness='harness/C17/schema_find.c', overlays=[], level='bounded',
+         bound='<= 3 leaf columns, <= 4 elements, names of length <= 4 (NUL within 5 bytes), all byte values', unwind=6,
+         defines=['CQV_STR_EXACT=5'], extra_sources=['stubs/schema_stubs.c'], includes=['.'], functions=['carquet_schema_find_column'],
+         trusted=['stubs/schema_stubs.c: strcmp/strncmp/strlen exact models for strings with NUL within 5 bytes'], wip=True),
+]
+GR = dict(harness='harness/C17/schema_grow.c', overlays=[], level='bounded', unwind=8, includes=['.'],
+          extra_sources=['stubs/schema_stubs.c'], cbmc_flags=OOM, checks=LEAK,
+          trusted=['CBMC realloc/calloc/malloc/free models (--malloc-may-fail --malloc-fail-null), stubs/schema_stubs.c: arena stubs, memset (typed zero / havoc)'])
+for cap in (1, 2, 3):
+    JOBS += [
+        dict(name='c17_ensure_capacity_grow_cap%d' % cap, props=['C17', 'C19'], entry='h_grow', functions=['schema_ensure_capacity', 'carquet_schema_free'],
+             defines=['CQV_CAP=%d' % cap, 'CQV_LIBC_REALLOC', 'CQV_SCHEMA_MEMSET'], wip=True,
+             bound='old capacity == %d (arrays of exactly that many entries, arbitrary contents), required <= %d; every allocation may fail' % (cap, 2 * cap + 1), **GR),
+        dict(name='c17_add_column_grow_cap%d' % cap, props=['C17', 'C19'], entry='h_add_column_grow', functions=['carquet_schema_add_column', 'schema_ensure_capacity', 'carquet_schema_free'],
+             defines=['CQV_CAP=%d' % cap, 'CQV_LIBC_REALLOC', 'CQV_SCHEMA_MEMSET'], wip=True,
+             bound='num_elements == capacity == %d; every allocation may fail' % cap, **GR),
+    ]
